@@ -373,7 +373,7 @@ Lemma ps_take_line_intro buf nl : find_index (Byte.eqb x0a) buf = Some nl -> nl 
   nth_error buf (nl - 1) = Some x0d ->
   take_line buf = Some (firstn (nl - 1) buf, skipn (S nl) buf).
 Proof.
-  intros Hi Hnl Hn. unfold take_line, LF. rewrite (ps_find_index_split _ _ _ Hi).
+  intros Hi Hnl Hn. rewrite take_line_unfold. unfold LF. rewrite (ps_find_index_split _ _ _ Hi).
   destruct nl as [|k]; [congruence|]. replace (S k - 1) with k in * by lia.
   rewrite (ps_firstn_S_nth _ _ _ Hn), rev_unit, rev_involutive. reflexivity.
 Qed.
@@ -444,7 +444,7 @@ Qed.
 (* ------------------------------------------------------------------ C04: strict_head_exact *)
 Lemma ps_take_line_inv l line rest : take_line l = Some (line, rest) -> l = line ++ [x0d; x0a] ++ rest.
 Proof.
-  unfold take_line, LF. intros H.
+  rewrite take_line_unfold. unfold LF. intros H.
   destruct (split_at x0a l) as [[before rest']|] eqn:Es; [|discriminate H].
   apply ps_split_at_inv in Es.
   destruct (rev before) as [|c rb] eqn:Er; [discriminate H|].
